@@ -95,11 +95,13 @@ type FakeLis struct {
 	addr     string
 	q        []*FakeConn
 	accepted []*FakeConn
-	closed   bool
-	obj      vs.Obj
+	closed    bool
+	accepting bool // the server has reached its accept loop (its listener is registered)
+	obj       vs.Obj
 }
 
 func (l *FakeLis) Accept() (socket.Conn, error) {
+	l.accepting = true
 	vs.BlockObj("env:accept "+l.addr, &l.obj, func() bool { return len(l.q) > 0 || l.closed })
 	if l.closed {
 		return nil, errListenerClosed
@@ -161,6 +163,7 @@ func (e *PipeEnd) readable() bool {
 // conn.Read.  Two workers may call serve for one connection concurrently.
 func (l *FakeLis) ServeMessages(opened func(socket.Messages) (socket.Context, error), serve func(socket.Context) error) error {
 	for {
+		l.accepting = true
 		vs.BlockObj("env:accept "+l.addr, &l.obj, func() bool { return len(l.q) > 0 || l.closed })
 		if l.closed {
 			return errListenerClosed
